@@ -461,6 +461,13 @@ func semanticCases(tr *Trace, p *poolProc, control *rawWS, ctl *int, rng *rand.R
 		pi.Network.RemoteAddress = filler(rng)
 		cases = append(cases, sem{"signed", "vipnode_update", signed("vipnode_update", me.nodeID, false, pool.UpdateRequest{PeerInfo: []ethnode.PeerInfo{pi, pi}, BlockNumber: ^uint64(0)})})
 	}
+	// node descriptions with kinds and networks outside the known ones (negative, huge)
+	for _, kind := range []int{-1, -2, -1000000, -1 << 62, 4, 99, 1 << 40} {
+		for _, full := range []bool{false, true} {
+			ua := ethnode.UserAgent{Version: filler(rng), EthProtocol: filler(rng), Kind: ethnode.NodeKind(kind), Network: ethnode.NetworkID(-kind), IsFullNode: full}
+			cases = append(cases, sem{"signed", "vipnode_connect", signed("vipnode_connect", me.nodeID, false, pool.ConnectRequest{NodeInfo: ua, NodeURI: "enode://" + me.nodeID + "@10.0.0.1:30303"})})
+		}
+	}
 	// every truncation of a peer's enode URI (peer descriptions are cut, padded and mangled by the clients' nodes)
 	fullEnode := "enode://" + strings.Repeat("c", 128) + "@10.0.0.1:30303"
 	for n := 0; n <= len(fullEnode); n++ {
